@@ -12,10 +12,15 @@ use std::future::Future;
 use std::hash::Hash;
 use std::mem;
 use std::pin::Pin;
+#[cfg(not(excsn_fibre_verif))]
 use std::sync::{
   atomic::{AtomicBool, Ordering},
   Arc, Weak,
 };
+#[cfg(excsn_fibre_verif)]
+use std::sync::{Arc, Weak};
+#[cfg(excsn_fibre_verif)]
+use crate::internal::sync::{AtomicBool, Ordering};
 use std::task::{Context, Poll};
 
 use futures_core::Stream;
